@@ -195,6 +195,17 @@ pub fn io_u8<const N: usize>(
             });
             finish(ret, r, |ret, ()| ret.push('-'));
         }
+        "extend_ref" => {
+            // `Extend<&'a T> for T: Copy`
+            let m = arg(1);
+            let v0 = arg(2);
+            let src: Vec<u8> = (0..m).map(|i| ((v0 % 256 + i % 256) % 256) as u8).collect();
+            let r = guard(|| {
+                cc!(buf.extend(src.iter()));
+                Got::Ready(())
+            });
+            finish(ret, r, |ret, ()| ret.push('-'));
+        }
         "flush" => {
             let r = guard(|| flush(buf, fam));
             finish(ret, r, |ret, ()| ret.push('-'));
